@@ -92,14 +92,16 @@ def Wtot (s : St α) : WindingState := Wat s s.active.size
 
 /-- the coherence invariant `Coh` of `Lemmas/SweepSafeCohInv.lean`, executable: every span live; number
 of spans = span-index increments of the winding fold; total winding `out`; every merge vertex in an
-`in` region -/
+`in` region and with winding 0.  (No longer part of the certificate: `Coh` is PROVED to hold after
+every event and after every `recover_from_error`, `Lemmas/SweepSafeCohRecover.lean`; kept as a
+diagnostic.) -/
 def cohB (s : St α) : Bool :=
   s.spans.all (·.isSome) &&
   decide ((s.spans.size : Int) = (Wtot s).spanIndex + 1) &&
   !(Wtot s).isIn &&
   (List.range s.active.size).all (fun k =>
     match s.active[k]? with
-    | some e => !e.isMerge || (Wat s k).isIn
+    | some e => !e.isMerge || ((Wat s k).isIn && e.winding == 0)
     | none => true)
 
 /-- `process_events` from a state whose scan passed: the step conserves the winding and the rest of
@@ -109,38 +111,46 @@ def procTailB (rec : St α → Bool) (s1 : St α) : Bool :=
   | (.ok _, s2) => stepOkB s1 s2 && rec (nextSt s2)
   | (.error _, _) => true
 
-/-- the second attempt, after `recover_from_error`: a second scan error ends the run with `Err` -/
-def secondB (rec : St α → Bool) (s3 : St α) : Bool :=
+/-- the second attempt, after `recover_from_error`: a second scan error ends the run with `Err`.
+`g` = also check `scanAgreeB` (not needed where the agreement of the on-edge tests is a theorem:
+ordered fields) -/
+def secondGB (g : Bool) (rec : St α → Bool) (s3 : St α) : Bool :=
   match scanActiveEdges s3 with
-  | .ok scan => scanAgreeB s3 scan && procTailB rec s3
+  | .ok scan => (!g || scanAgreeB s3 scan) && procTailB rec s3
   | .error _ => true
 
-/-- `recover_from_error`: the state it leaves is CHECKED to be coherent (`cohB`) -/
-def recTailB (rec : St α → Bool) (s : St α) : Bool :=
+/-- `recover_from_error`: nothing is checked about the recovery itself (that it re-establishes the
+coherence invariant is proved for all inputs, `recoverFromError_coh`); the certificate just continues
+with the second attempt at the event -/
+def recTailGB (g : Bool) (rec : St α → Bool) (s : St α) : Bool :=
   match ((recoverFromError : SM α Unit).run.run s : Except Fail Unit × St α) with
-  | (.ok _, s3) => cohB s3 && secondB rec s3
+  | (.ok _, s3) => secondGB g rec s3
   | (.error _, _) => true
 
 /-- the first attempt at an event -/
-def firstB (rec : St α → Bool) (s1 : St α) : Bool :=
+def firstGB (g : Bool) (rec : St α → Bool) (s1 : St α) : Bool :=
   match scanActiveEdges s1 with
-  | .ok scan => scanAgreeB s1 scan && procTailB rec s1
+  | .ok scan => (!g || scanAgreeB s1 scan) && procTailB rec s1
   | .error _ =>
     match ((processEvents : SM α (Option IErr)).run.run s1 : Except Fail (Option IErr) × St α) with
-    | (.ok _, s1') => recTailB rec s1'
+    | (.ok _, s1') => recTailGB g rec s1'
     | (.error _, _) => true
 
-def initTailB (rec : St α → Bool) (s : St α) : Bool :=
+def initTailGB (g : Bool) (rec : St α → Bool) (s : St α) : Bool :=
   match ((initializeEvents : SM α Unit).run.run s : Except Fail Unit × St α) with
-  | (.ok _, s1) => firstB rec s1
+  | (.ok _, s1) => firstGB g rec s1
   | (.error _, _) => true
 
-/-- the certificate of the run of `tessellator_loop f` from `s`: at every event the scan result passes
-`scanAgreeB` and the step conserves the winding (`stepOkB`); after every `recover_from_error` the state
-is coherent (`cohB`, checked) -/
-def allOkB : Nat → St α → Bool
+/-- the certificate of the run of `tessellator_loop f` from `s`: at every event the step conserves the
+winding (`stepOkB`) and - when `g` - the scan result passes `scanAgreeB`.  These two checks are exactly
+the residue that is not proved for all inputs; everything else (in particular the state after
+`recover_from_error`) is covered by theorems -/
+def allOkGB (g : Bool) : Nat → St α → Bool
   | 0, _ => true
-  | f+1, s => s.curEvent == INVALID || initTailB (allOkB f) s
+  | f+1, s => s.curEvent == INVALID || initTailGB g (allOkGB g f) s
+
+/-- the certificate with both checks -/
+def allOkB (f : Nat) (s : St α) : Bool := allOkGB true f s
 
 /-- the initial state of `tessellate_impl` -/
 def initSt (q : Queue α) (rule : Slab.Rule) (horizontal : Bool) (tol : α) (handleIx : Bool) : St α where
@@ -160,12 +170,25 @@ def initSt (q : Queue α) (rule : Slab.Rule) (horizontal : Bool) (tol : α) (han
   nverts := 0
 
 /-- the executable certificate of a run of `tessellate_impl` -/
-def cleanRunB (q : Queue α) (rule : Slab.Rule) (horizontal : Bool) (tol : α) (handleIx : Bool) : Bool :=
-  allOkB (4 * q.events.size * q.events.size + 1000) (initSt q rule horizontal tol handleIx)
+def cleanRunGB (g : Bool) (q : Queue α) (rule : Slab.Rule) (horizontal : Bool) (tol : α) (handleIx : Bool) : Bool :=
+  allOkGB g (4 * q.events.size * q.events.size + 1000) (initSt q rule horizontal tol handleIx)
 
 /-- the certificate for the whole `FillTessellator` on polygonal input -/
+def cleanGB (g : Bool) (entry : Entry) (rule : Slab.Rule) (horizontal : Bool) (tol : α) (handleIx : Bool)
+    (subs : List (SubPath α)) : Bool :=
+  cleanRunGB g (buildQueue entry horizontal subs).sort rule horizontal tol handleIx
+
+/-- both checks (the certificate evaluated by the C01 check on `f32`) -/
+def cleanRunB (q : Queue α) (rule : Slab.Rule) (horizontal : Bool) (tol : α) (handleIx : Bool) : Bool :=
+  cleanRunGB true q rule horizontal tol handleIx
+
 def cleanB (entry : Entry) (rule : Slab.Rule) (horizontal : Bool) (tol : α) (handleIx : Bool)
     (subs : List (SubPath α)) : Bool :=
-  cleanRunB (buildQueue entry horizontal subs).sort rule horizontal tol handleIx
+  cleanGB true entry rule horizontal tol handleIx subs
+
+/-- winding conservation only (enough over ordered fields, where `scanAgreeB` is a theorem) -/
+def windB (entry : Entry) (rule : Slab.Rule) (horizontal : Bool) (tol : α) (handleIx : Bool)
+    (subs : List (SubPath α)) : Bool :=
+  cleanGB false entry rule horizontal tol handleIx subs
 
 end Lyon.SweepCoh
